@@ -40,7 +40,9 @@ sequentially consistent interleaving of word-sized steps and `lock_guard` acquir
 says; the event lists come from the trusted script `tools/gen_locktable.py`; the DATA FLOW of the bodies is not
 extracted from the source: every class theorem quantifies over it, constrained only by a SEQUENTIAL contract (what
 each method does when run alone — single-threaded behaviour, the subject of C16–C18 and of the unit tests), and the
-hand-written flows of `LinClasses.lean` / `LinReport.lean` show the contracts satisfiable on today's event lists;
+hand-written flows of `LinClasses.lean` / `LinReport.lean` show the contracts satisfiable on today's event lists (for the
+check-up reports of the four classes whose `evaluate` is translated, `Properties/C19Reports.lean` discharges the contract with a
+flow computed by the functions translated from today's source);
 `RateMonitoring` (critical sections plus a lock-free atomic load) does not have the shape of Part 2: it is covered by
 Part 3, `Properties/C19Rate.lean` (`serialisable`, `table_rate_monitoring_shaped`); real-time order of the
 linearization is by construction, not a theorem; the ThreadSanitizer harness cross-checks all of this on the real
@@ -767,15 +769,22 @@ theorem report_copy_consistent {V X : Type} [Inhabited V] (c : Class) (hls : c.l
   · exact Or.inr ⟨t', op, e, h1, h2, by rw [hr, h3]⟩
 
 /-- the six check-up classes of the regenerated table have the `getReport` the previous theorem asks for (guard 0;
-    the report is field 1 of `Checkup`, 3 of the comparison check-ups, 2 of `CheckupRate` (its inner check-up) and of
-    `CheckupReliability`) -/
+    the report is the member `report_` of `Checkup`, of the comparison check-ups and of `CheckupReliability`, and the inner
+    check-up `checkup_` of `CheckupRate`; members are looked up BY NAME in `fields_<Class>`, the member names by field number
+    emitted by `tools/gen_locktable.py` — the numbers follow the order of first access and change under harmless edits) -/
 theorem checkup_getReport_shape :
-    (cls_Checkup.guard = 0 ∧ cls_Checkup.evsOf "getReport" = [.acq 0, .rd 1, .rel 0]) ∧
-    (cls_CheckupEqualTo.guard = 0 ∧ cls_CheckupEqualTo.evsOf "getReport" = [.acq 0, .rd 3, .rel 0]) ∧
-    (cls_CheckupGreaterThan.guard = 0 ∧ cls_CheckupGreaterThan.evsOf "getReport" = [.acq 0, .rd 3, .rel 0]) ∧
-    (cls_CheckupLowerThan.guard = 0 ∧ cls_CheckupLowerThan.evsOf "getReport" = [.acq 0, .rd 3, .rel 0]) ∧
-    (cls_CheckupRate.guard = 0 ∧ cls_CheckupRate.evsOf "getReport" = [.acq 0, .rd 2, .rel 0]) ∧
-    (cls_CheckupReliability.guard = 0 ∧ cls_CheckupReliability.evsOf "getReport" = [.acq 0, .rd 2, .rel 0]) := by
+    (cls_Checkup.guard = 0 ∧ cls_Checkup.evsOf "getReport" = [.acq 0, .rd (fields_Checkup.idxOf "report_"), .rel 0]) ∧
+    (cls_CheckupEqualTo.guard = 0 ∧
+      cls_CheckupEqualTo.evsOf "getReport" = [.acq 0, .rd (fields_CheckupEqualTo.idxOf "report_"), .rel 0]) ∧
+    (cls_CheckupGreaterThan.guard = 0 ∧
+      cls_CheckupGreaterThan.evsOf "getReport" = [.acq 0, .rd (fields_CheckupGreaterThan.idxOf "report_"), .rel 0]) ∧
+    (cls_CheckupLowerThan.guard = 0 ∧
+      cls_CheckupLowerThan.evsOf "getReport" = [.acq 0, .rd (fields_CheckupLowerThan.idxOf "report_"), .rel 0]) ∧
+    (cls_CheckupRate.guard = 0 ∧ cls_CheckupRate.evsOf "getReport" = [.acq 0, .rd (fields_CheckupRate.idxOf "checkup_"), .rel 0]) ∧
+    (cls_CheckupReliability.guard = 0 ∧
+      cls_CheckupReliability.evsOf "getReport" = [.acq 0, .rd (fields_CheckupReliability.idxOf "report_"), .rel 0]) ∧
+    "report_" ∈ fields_Checkup ∧ "report_" ∈ fields_CheckupEqualTo ∧ "report_" ∈ fields_CheckupGreaterThan ∧
+    "report_" ∈ fields_CheckupLowerThan ∧ "checkup_" ∈ fields_CheckupRate ∧ "report_" ∈ fields_CheckupReliability := by
   decide
 
 /-- **OnlineAverage / OnlineVariance: the values of `getAverage`, `getVariance`, `isAvailable` are those of a serial
